@@ -656,6 +656,7 @@ class Spec(object):
             except TypeError:
                 return Top("neg")
         if isinstance(e.op, ast.Not):
+            v = self.vis(v)
             if is_sym(v):
                 return neg(v)
             return not self.truthy(v)
@@ -699,6 +700,7 @@ class Spec(object):
 
     def truth_of(self, v):
         """True / False when the truthiness of v is known, else None."""
+        v = self.vis(v)
         if isinstance(v, Guard):
             ta = True if (v.a is v.cond or repr(v.a) == repr(v.cond)) else self.truth_of(v.a)
             tb = False if (v.b is v.cond or repr(v.b) == repr(v.cond)) else self.truth_of(v.b)
@@ -1457,7 +1459,15 @@ class Spec(object):
             else:
                 env[t.id] = v
         elif isinstance(t, (ast.Tuple, ast.List)):
-            if isinstance(v, (tuple, list)) and len(v) == len(t.elts):
+            v = self.vis(v)
+            if is_sym(v) and any(isinstance(x, ast.Starred) for x in t.elts):
+                # head, *rest = <symbolic sequence>
+                for k, x in enumerate(t.elts):
+                    if isinstance(x, ast.Starred):
+                        self.assign(x.value, Sym("rest(%s)" % show(v)[:40], "list", {"of": v, "from": k}), env, g)
+                    else:
+                        self.assign(x, self.assumed(Op("item", v, k)), env, g)
+            elif isinstance(v, (tuple, list)) and len(v) == len(t.elts):
                 for x, y in zip(t.elts, v):
                     self.assign(x, y, env, g)
             elif isinstance(v, Guard) and isinstance(v.a, tuple) and isinstance(v.b, tuple) and len(v.a) == len(v.b) == len(t.elts):
